@@ -44,7 +44,10 @@ impl ChangeBatch {
     pub open spec fn wf(&self) -> bool {
         &&& forall|i: int| 0 <= i < self.changes.len() ==> self.hashes@.contains(self.changes[i].spec_hash()) && self.incoming_actor_seqs@.contains((self.changes[i].spec_actor(), self.changes[i].spec_seq()))
         &&& forall|i: int, j: int| 0 <= i < j < self.changes.len() ==> (self.changes[i].spec_actor(), self.changes[i].spec_seq()) != (self.changes[j].spec_actor(), self.changes[j].spec_seq())
-        &&& forall|a: ActorId, s: u64| self.incoming_actor_seqs@.contains((a, s)) ==> exists|i: int| 0 <= i < self.changes.len() && self.changes[i].spec_actor() == a && self.changes[i].spec_seq() == s
+        &&& forall|a: ActorId, s: u64| #[trigger] self.incoming_actor_seqs@.contains((a, s)) ==> exists|i: int| self.at(i, a, s)
+    }
+    pub open spec fn at(&self, i: int, a: ActorId, s: u64) -> bool {
+        0 <= i < self.changes.len() && self.changes[i].spec_actor() == a && self.changes[i].spec_seq() == s
     }
 
     pub(crate) fn push(&mut self, change: Change) -> (r: Result<(), AutomergeError>)
@@ -69,6 +72,25 @@ impl ChangeBatch {
         self.hashes.insert(hash);
         self.incoming_actor_seqs.insert(actor_seq);
         self.changes.push(change);
+        proof {
+            let n = old(self).changes.len() as int;
+            assert(self.changes@ == old(self).changes@.push(change));
+            assert forall|a: ActorId, s: u64| #[trigger] self.incoming_actor_seqs@.contains((a, s)) implies exists|i: int| self.at(i, a, s) by {
+                if (a, s) == actor_seq {
+                    assert(self.at(n, a, s));
+                } else {
+                    assert(old(self).incoming_actor_seqs@.contains((a, s)));
+                    let i = choose|i: int| old(self).at(i, a, s);
+                    assert(self.at(i, a, s));
+                }
+            }
+            assert forall|i: int, j: int| 0 <= i < j < self.changes.len() implies (self.changes[i].spec_actor(), self.changes[i].spec_seq()) != (self.changes[j].spec_actor(), self.changes[j].spec_seq()) by {
+                if j == n {
+                    // changes[i] is old; its pair is in the old set, the new pair is not
+                    assert(old(self).incoming_actor_seqs@.contains((old(self).changes[i].spec_actor(), old(self).changes[i].spec_seq())));
+                }
+            }
+        }
         Ok(())
     }
 }
